@@ -109,15 +109,18 @@ structure RSt where
   idx : Arr Nat
   w : Arr Int
 
-def randomizeStep (diff : Rat) (rand : Arr Rat) (i : Nat) (s : RSt) : RSt :=
-  let ind1 := s.idx.get (i - 1)
-  let ind2 := s.idx.get i
-  let w1 := s.w.get ind1
-  let w2 := s.w.get ind2
+/-- `rand[i] >= abs(w2 - w1) / diff * 0.5 + 0.5` -/
+def randomizeTest (diff : Rat) (rand : Arr Rat) (i : Nat) (s : RSt) : Bool :=
+  let w1 := s.w.get (s.idx.get (i - 1))
+  let w2 := s.w.get (s.idx.get i)
   let a : Int := if w2 - w1 < 0 then -(w2 - w1) else w2 - w1
   let ratio : Rat := (a : Rat) / diff * (1 / 2)
-  if rand.get i ≥ ratio + 1 / 2 then
-    { idx := upd (upd s.idx (i - 1) ind2) i ind1, w := upd (upd s.w (i - 1) w2) i w1 }
+  decide (rand.get i ≥ ratio + 1 / 2)
+
+def randomizeStep (diff : Rat) (rand : Arr Rat) (i : Nat) (s : RSt) : RSt :=
+  if randomizeTest diff rand i s then
+    { idx := upd (upd s.idx (i - 1) (s.idx.get i)) i (s.idx.get (i - 1)),
+      w := upd (upd s.w (i - 1) (s.w.get (s.idx.get i))) i (s.w.get (s.idx.get (i - 1))) }
   else s
 
 def randomizeLoop (diff : Rat) (rand : Arr Rat) : List Nat → RSt → RSt
